@@ -122,6 +122,17 @@ def rule_py_available_bytes_come_from_the_stream(out, pyr):
         return
     n = 0
     for mname, fn in pyr.methods(cl["CodedInputStream"]).items():
+        # explaining locals: names bound (transitively) to an expression that contains a readinto() call
+        from_read = set()
+        changed = True
+        while changed:
+            changed = False
+            for st0 in ast.walk(fn):
+                if isinstance(st0, ast.Assign) and len(st0.targets) == 1 and isinstance(st0.targets[0], ast.Name) and st0.targets[0].id not in from_read:
+                    v = st0.value
+                    if any((isinstance(c, ast.Call) and isinstance(c.func, ast.Attribute) and c.func.attr in ("readinto", "readinto1")) or (isinstance(c, ast.Name) and c.id in from_read) for c in ast.walk(v)):
+                        from_read.add(st0.targets[0].id)
+                        changed = True
         for st in ast.walk(fn):
             targets, value = [], None
             if isinstance(st, ast.Assign):
@@ -133,7 +144,7 @@ def rule_py_available_bytes_come_from_the_stream(out, pyr):
                     continue
                 if t.attr == "_last_read_count":
                     n += 1
-                    has_readinto = any(isinstance(c, ast.Call) and isinstance(c.func, ast.Attribute) and c.func.attr in ("readinto", "readinto1") for c in ast.walk(value))
+                    has_readinto = any((isinstance(c, ast.Call) and isinstance(c.func, ast.Attribute) and c.func.attr in ("readinto", "readinto1")) or (isinstance(c, ast.Name) and c.id in from_read) for c in ast.walk(value))
                     zero = isinstance(value, ast.Constant) and value.value == 0
                     out.check(zero or has_readinto, rid, "CodedInputStream.%s/_last_read_count#%d" % (mname, n), pyr.pos(rel, st), "0 or a readinto() result",
                               "`%s`: the number of available bytes is not what a readinto() delivered — bytes are declared read that the stream object has not handed out, so its position "
